@@ -34,7 +34,8 @@ def plan(tier):
             "adjacent_windows_line_aligned_seam", "adjacent_seam_from_tlc_behaviour", "adjacent_seam_at_8k_boundary",
             "adjacent_seam_between_cr_and_lf", "bufreader_seam_on_line_end_then_adjacent",
             "empty_interval_into_dirty_buffer", "reader_new", "reader_with_index", "reader_with_cloned_index",
-            "reader_with_serde_index", "read_iter_through_nth", "read_iter_through_step_by", "fetch_set_in_two_orders", "name_first_byte_sweep", "name_with_csv_special_first_byte",
+            "reader_with_serde_index", "read_iter_through_nth", "read_iter_through_step_by", "fetch_set_in_two_orders", "from_file_non_utf8_path", "from_file_unusual_path",
+            "index_promises_more_than_the_file_holds_huge", "index_promises_more_than_the_file_holds", "name_first_byte_sweep", "name_with_csv_special_first_byte",
             "index_from_file", "shared_cursor_two_readers", "shared_cursor_adjacent_window_after_foreign_read",
             "fetch_beyond_4GiB", "line_number_beyond_2_32", "big_control_below_4GiB",
             "virtual_generator_small_dump"],
